@@ -8,7 +8,7 @@ package cache
 // Ghost state: /verif/specs/fs.spec (fsExists, fsMtime, clock, failBudget, ...).
 // Times are integers of nanoseconds (tns).
 
-//@ property C13: (*Cache).used, (*Cache).trimSubdir, (*Cache).Trim, (*Cache).OutputFile, (*Cache).fileName, lemma:retention
+//@ property C13: (*Cache).used, (*Cache).trimSubdir, (*Cache).Trim, (*Cache).OutputFile, (*Cache).GetFile, (*Cache).Get, (*Cache).get, get$1, (*Cache).fileName, lemma:retention
 
 // a cache entry name: "<hex>-a" (index entry) or "<hex>-d" (data file)
 //@ pure func entryName(n string) bool = len(n) >= 2 && n[len(n)-2] == '-' && (n[len(n)-1] == 'a' || n[len(n)-1] == 'd')
@@ -91,6 +91,7 @@ package cache
 //@   requires c != nil
 //@   modifies fdPath, fdMode, fdClosed, fsMtime, failBudget, clock, bytes, H_Str
 //@   ensures failBudget <= old(failBudget)
+//@   ensures clock >= old(clock) && (old(failBudget) == 0 ==> failBudget == 0)
 //@   at call io.ReadFull#1: bind ebuf = buf, rdN = n
 //@   at call (*cache.Cache).used#1: requires true
 //@   loop 1: invariant 0 <= i && i <= len(esize)
@@ -104,6 +105,8 @@ package cache
 //@ func (*Cache).Get
 //@   names (e, err)
 //@   requires c != nil
+//@   modifies fdPath, fdMode, fdClosed, fsMtime, failBudget, clock, bytes, H_Str
+//@   ensures clock >= old(clock) && (old(failBudget) == 0 ==> failBudget == 0) && fsExists == old(fsExists)
 //@   ensures err != nil ==> isType(err, entryNotFoundError)
 //@   ensures err == nil ==> e.Size >= 0
 
@@ -119,6 +122,7 @@ package cache
 //@   requires c != nil
 //@   ensures err == nil ==> fsSize[file] == entry.Size && fsExists[file]
 //@   ensures err != nil ==> isType(err, entryNotFoundError)
+//@   ensures err == nil && old(failBudget) == 0 ==> fsMtime[file] > old(clock) - hour()
 
 // ---- C11 / C12: the store side ----
 //@ property C12: (*Cache).put, (*Cache).copyFile, (*Cache).putIndexEntry, (*Cache).fileName
